@@ -7,21 +7,7 @@ open FpVerif.Rec
 
 variable {α : Type}
 
-/-! ## record plumbing -/
-
-theorem projectG_eq_project (fs : List Field) (x : Rec) : projectG fs x = project fs x := by
-  induction fs generalizing x with
-  | nil => cases x <;> simp [projectG, project]
-  | cons f fs ih => cases x <;> simp [projectG, project, ih]
-
-theorem injectG_eq_inject (fs : List Field) (b : Rec) (t : List RV) :
-    injectG fs b t = inject fs b t := by
-  induction fs generalizing b t with
-  | nil => cases b <;> simp [injectG, inject]
-  | cons f fs ih =>
-    cases b with
-    | nil => simp [injectG, inject]
-    | cons bv bs => cases t <;> simp [injectG, inject, ih]
+/-! ## record plumbing (any value type) -/
 
 theorem projectG_length (fs : List Field) (x : List α) (h : x.length = fs.length) :
     (projectG fs x).length = (fs.filter Field.applicable).length := by
@@ -64,58 +50,94 @@ theorem projectG_injectG (fs : List Field) (b t : List α) (hb : b.length = fs.l
           simp [injectG, projectG, hf]
           exact ih bs t' hb' (by simpa [hf] using ht)
 
-theorem project_length (s : StructSpec) (x : Rec) (h : Rec.WF s x) :
-    (unapply s x).length = s.nApp := by
-  simpa [unapply, StructSpec.nApp, StructSpec.applicableFields, projectG_eq_project]
-    using projectG_length s.fields x h
+theorem unapplyG_length (s : StructSpec) (x : List α) (h : WFG s x) :
+    (unapplyG s x).length = s.nApp := by
+  simpa [unapplyG, StructSpec.nApp, StructSpec.applicableFields] using projectG_length s.fields x h
 
-theorem zero_WF (s : StructSpec) : Rec.WF s s.zero := by simp [Rec.WF, StructSpec.zero]
+theorem fromZero_WFG (s : StructSpec) (zero t : List α) (hz : WFG s zero) :
+    WFG s (fromZero s zero t) := by
+  simpa [WFG, fromZero, injectG_length] using hz
 
-theorem apply_WF (s : StructSpec) (b : Rec) (t : List RV) (hb : Rec.WF s b) :
-    Rec.WF s (apply s b t) := by
-  simpa [Rec.WF, apply, ← injectG_eq_inject, injectG_length] using hb
-
-theorem unapply_apply (s : StructSpec) (b : Rec) (t : List RV) (hb : Rec.WF s b)
-    (ht : t.length = s.nApp) : unapply s (apply s b t) = t := by
-  simpa [unapply, apply, projectG_eq_project, injectG_eq_inject]
-    using projectG_injectG s.fields b t hb ht
+theorem unapplyG_fromZero (s : StructSpec) (zero t : List α) (hz : WFG s zero)
+    (ht : t.length = s.nApp) : unapplyG s (fromZero s zero t) = t :=
+  projectG_injectG s.fields zero t hz ht
 
 /-- `TBuilder{}.FromTuple(x.AsTuple()).Build()` is `x` with the non-applicable fields zeroed -/
-theorem inject_zero_project (fs : List Field) (x : Rec) (h : x.length = fs.length) :
-    inject fs (fs.map Field.zero) (project fs x) = mask fs x := by
-  induction fs generalizing x with
-  | nil => cases x <;> simp [inject, mask]
+theorem injectG_zero_projectG (fs : List Field) (zero x : List α) (hz : zero.length = fs.length)
+    (h : x.length = fs.length) : injectG fs zero (projectG fs x) = maskG fs zero x := by
+  induction fs generalizing zero x with
+  | nil => cases x <;> cases zero <;> simp_all [injectG, maskG]
   | cons f fs ih =>
     cases x with
     | nil => simp at h
     | cons v vs =>
-      have := ih vs (by simpa using h)
-      cases hf : f.applicable <;> simp [inject, project, mask, hf, this]
+      cases zero with
+      | nil => simp at hz
+      | cons z zs =>
+        have := ih zs vs (by simpa using hz) (by simpa using h)
+        cases hf : f.applicable <;> simp [injectG, projectG, maskG, hf, this]
 
-/-- whatever tuple is assigned onto the zero builder, the non-applicable fields stay zero -/
-theorem mask_inject_zero (fs : List Field) (t : List RV) :
-    mask fs (inject fs (fs.map Field.zero) t) = inject fs (fs.map Field.zero) t := by
-  induction fs generalizing t with
-  | nil => simp [inject, mask]
+/-- whatever tuple is assigned onto the zero value, the non-applicable fields stay zero -/
+theorem maskG_injectG_zero (fs : List Field) (zero t : List α) (hz : zero.length = fs.length) :
+    maskG fs zero (injectG fs zero t) = injectG fs zero t := by
+  induction fs generalizing zero t with
+  | nil => cases zero <;> simp_all [injectG, maskG]
   | cons f fs ih =>
-    cases hf : f.applicable
-    · simp [inject, mask, hf, ih]
-    · cases t <;> simp [inject, mask, hf, ih]
+    cases zero with
+    | nil => simp at hz
+    | cons z zs =>
+      have hz' : zs.length = fs.length := by simpa using hz
+      cases hf : f.applicable
+      · simp [injectG, maskG, hf, ih zs t hz']
+      · cases t <;> simp [injectG, maskG, hf, ih zs _ hz']
 
 /-- when every field is applicable nothing is lost -/
-theorem mask_all_applicable (fs : List Field) (x : Rec) (hlen : x.length = fs.length)
-    (happ : ∀ f ∈ fs, f.applicable = true) : mask fs x = x := by
-  induction fs generalizing x with
+theorem maskG_all_applicable (fs : List Field) (zero x : List α) (hz : zero.length = fs.length)
+    (hlen : x.length = fs.length) (happ : ∀ f ∈ fs, f.applicable = true) : maskG fs zero x = x := by
+  induction fs generalizing zero x with
   | nil => cases x with
-    | nil => rfl
+    | nil => cases zero <;> rfl
     | cons v vs => simp at hlen
   | cons f fs ih =>
     cases x with
     | nil => simp at hlen
     | cons v vs =>
-      have hf : f.applicable = true := happ f (by simp)
-      have := ih vs (by simpa using hlen) (fun g hg => happ g (by simp [hg]))
-      simp [mask, hf, this]
+      cases zero with
+      | nil => simp at hz
+      | cons z zs =>
+        have hf : f.applicable = true := happ f (by simp)
+        have := ih zs vs (by simpa using hz) (by simpa using hlen)
+          (fun g hg => happ g (by simp [hg]))
+        simp [maskG, hf, this]
+
+/-- masking forgets the non-applicable fields and nothing else -/
+theorem projectG_maskG (fs : List Field) (zero x : List α) (hz : zero.length = fs.length)
+    (h : x.length = fs.length) : projectG fs (maskG fs zero x) = projectG fs x := by
+  rw [← injectG_zero_projectG fs zero x hz h]
+  exact projectG_injectG fs zero _ hz (projectG_length fs x h)
+
+/-! ### the record model of C07 is the instance `α = RV` -/
+
+theorem projectG_eq_project (fs : List Field) (x : Rec) : projectG fs x = project fs x := by
+  induction fs generalizing x with
+  | nil => cases x <;> simp [projectG, project]
+  | cons f fs ih => cases x <;> simp [projectG, project, ih]
+
+theorem injectG_eq_inject (fs : List Field) (b : Rec) (t : List RV) :
+    injectG fs b t = inject fs b t := by
+  induction fs generalizing b t with
+  | nil => cases b <;> simp [injectG, inject]
+  | cons f fs ih =>
+    cases b with
+    | nil => simp [injectG, inject]
+    | cons bv bs => cases t <;> simp [injectG, inject, ih]
+
+theorem maskG_eq_mask (fs : List Field) (x : Rec) : maskG fs (fs.map Field.zero) x = mask fs x := by
+  induction fs generalizing x with
+  | nil => cases x <;> simp [maskG, mask]
+  | cons f fs ih => cases x <;> simp [maskG, mask, ih]
+
+theorem zero_WF (s : StructSpec) : Rec.WF s s.zero := by simp [Rec.WF, StructSpec.zero]
 
 /-! ## eq -/
 
@@ -269,14 +291,26 @@ theorem eqv_not_less (L : LawfulOrdOn P d) {a b : α} (pa : P a) (pb : P b)
     (h : d.eqv a b = true) : d.less a b = false :=
   ((L.eqv_iff a b pa pb).1 h).1
 
-/-- laws transfer along `ContraMap` -/
-theorem contraMap {β : Type} {Q : β → Prop} {eqv less : α → α → Bool}
-    (L : LawfulOrdOn P ⟨eqv, less⟩) (f : β → α) (hf : ∀ x, Q x → P (f x)) :
-    LawfulOrdOn Q (OrdD.contraMap eqv less f) where
+/-- laws transfer along a function into the carrier -/
+theorem comap {β : Type} {Q : β → Prop} (L : LawfulOrdOn P d) (f : β → α)
+    (hf : ∀ x, Q x → P (f x)) :
+    LawfulOrdOn Q ⟨fun a b => d.eqv (f a) (f b), fun a b => d.less (f a) (f b)⟩ where
   irrefl a qa := L.irrefl (f a) (hf a qa)
   trans a b c qa qb qc := L.trans (f a) (f b) (f c) (hf a qa) (hf b qb) (hf c qc)
   eqv_iff a b qa qb := L.eqv_iff (f a) (f b) (hf a qa) (hf b qb)
   eqv_trans a b c qa qb qc := L.eqv_trans (f a) (f b) (f c) (hf a qa) (hf b qb) (hf c qc)
+
+/-- laws only look at the values of `Eqv` / `Less` on the carrier -/
+theorem congr {d' : OrdD α} (L : LawfulOrdOn P d)
+    (h : ∀ a b, P a → P b → d'.eqv a b = d.eqv a b ∧ d'.less a b = d.less a b) :
+    LawfulOrdOn P d' where
+  irrefl a pa := by rw [(h a a pa pa).2]; exact L.irrefl a pa
+  trans a b c pa pb pc := by
+    rw [(h a b pa pb).2, (h b c pb pc).2, (h a c pa pc).2]; exact L.trans a b c pa pb pc
+  eqv_iff a b pa pb := by
+    rw [(h a b pa pb).1, (h a b pa pb).2, (h b a pb pa).2]; exact L.eqv_iff a b pa pb
+  eqv_trans a b c pa pb pc := by
+    rw [(h a b pa pb).1, (h b c pb pc).1, (h a c pa pc).1]; exact L.eqv_trans a b c pa pb pc
 
 end LawfulOrdOn
 
@@ -393,7 +427,7 @@ theorem tupleLess_trans (ds : List (OrdD α)) (h : ∀ d ∈ ds, LawfulOrd d) (a
               simpa using ih' (by simpa using e1) (by simpa using e2)
 
 /-- the tuple `Eqv` (conjunction of component `Eqv`s) is exactly "neither tuple is `Less`" -/
-theorem tupleEq_iff_not_less (ds : List (OrdD α)) (h : ∀ d ∈ ds, LawfulOrd d) (as bs : List α)
+theorem tupleEq_iff_not_less (ds : List (OrdD α)) (h : ∀ d ∈ ds, OrdCompat d) (as bs : List α)
     (ha : as.length = ds.length) (hb : bs.length = ds.length) :
     tupleEq (ds.map OrdD.toEq) as bs = true ↔
       (tupleLess ds as bs = false ∧ tupleLess ds bs as = false) := by
@@ -406,10 +440,9 @@ theorem tupleEq_iff_not_less (ds : List (OrdD α)) (h : ∀ d ∈ ds, LawfulOrd 
     cases bs with
     | nil => simp at hb
     | cons b bs =>
-      have L := h d (by simp)
+      have E := h d (by simp) a b
       have ih' := ih (fun d hd => h d (by simp [hd])) as bs (by simpa using ha) (by simpa using hb)
       rw [List.map_cons, tupleEq_cons, tupleLess_cons, tupleLess_cons, Bool.and_eq_true, ih']
-      have E := L.eqv_iff a b trivial trivial
       simp only [OrdD.toEq]
       cases hab : d.less a b with
       | true =>
@@ -430,18 +463,93 @@ theorem tupleEq_iff_not_less (ds : List (OrdD α)) (h : ∀ d ∈ ds, LawfulOrd 
           have : d.eqv a b = true := E.2 ⟨hab, hba⟩
           simp [this]
 
-theorem tupleOrd_lawful (ds : List (OrdD α)) (h : ∀ d ∈ ds, LawfulOrd d) :
+theorem LawfulOrdOn.compat {d : OrdD α} (L : LawfulOrd d) : OrdCompat d :=
+  fun a b => L.eqv_iff a b trivial trivial
+
+/-- the reference pair (conjunction of `Eqv`s, lexicographic `Less`) is a lawful order -/
+theorem tupleLex_lawful (ds : List (OrdD α)) (h : ∀ d ∈ ds, LawfulOrd d) :
     LawfulOrdOn (fun l : List α => l.length = ds.length)
       ⟨tupleEq (ds.map OrdD.toEq), tupleLess ds⟩ where
   irrefl a _ := tupleLess_irrefl ds h a
   trans a b c pa pb pc := tupleLess_trans ds h a b c pa pb pc
-  eqv_iff a b pa pb := tupleEq_iff_not_less ds h a b pa pb
+  eqv_iff a b pa pb := tupleEq_iff_not_less ds (fun d hd => (h d hd).compat) a b pa pb
   eqv_trans a b c pa pb pc :=
     tupleEq_trans (ds.map OrdD.toEq)
       (fun d hd => by
         obtain ⟨d', hd', rfl⟩ := List.mem_map.1 hd
         exact (h d' hd').toEq)
       a b c (by simpa using pa) (by simpa using pb) (by simpa using pc)
+
+/-- `ord.New(eqv, less)` is the pair `(eqv, less)` wherever `eqv` is "neither is less" -/
+theorem OrdD.new_of_compat (e l : α → α → Bool) (a b : α)
+    (h : e a b = true ↔ (l a b = false ∧ l b a = false)) :
+    (OrdD.new e l).eqv a b = e a b ∧ (OrdD.new e l).less a b = l a b := by
+  cases he : e a b <;> cases hab : l a b <;> cases hba : l b a <;> simp_all [OrdD.new]
+
+theorem tupleOrd_nil (as bs : List α) :
+    (tupleOrd ([] : List (OrdD α))).eqv as bs = true ∧ (tupleOrd ([] : List (OrdD α))).less as bs = false := by
+  simp [tupleOrd, OrdD.new]
+
+/-- the generated `ord.TupleN` (every level wrapped in `ord.New`) computes the reference pair
+    when every component's `Eqv` is "neither is less" -/
+theorem tupleOrd_spec (ds : List (OrdD α)) (h : ∀ d ∈ ds, OrdCompat d) (as bs : List α)
+    (ha : as.length = ds.length) (hb : bs.length = ds.length) :
+    (tupleOrd ds).eqv as bs = tupleEq (ds.map OrdD.toEq) as bs ∧
+      (tupleOrd ds).less as bs = tupleLess ds as bs := by
+  induction ds generalizing as bs with
+  | nil => simp [tupleOrd, OrdD.new, tupleEq, tupleLess]
+  | cons d ds ih =>
+    cases as with
+    | nil => simp at ha
+    | cons a as =>
+    cases bs with
+    | nil => simp at hb
+    | cons b bs =>
+      have ha' : as.length = ds.length := by simpa using ha
+      have hb' : bs.length = ds.length := by simpa using hb
+      have h' : ∀ d ∈ ds, OrdCompat d := fun d hd => h d (by simp [hd])
+      have i1 := ih h' as bs ha' hb'
+      have i2 := ih h' bs as hb' ha'
+      have C := tupleEq_iff_not_less (d :: ds) h (a :: as) (b :: bs) ha hb
+      rw [List.map_cons, tupleEq_cons, tupleLess_cons, tupleLess_cons] at C
+      rw [List.map_cons, tupleEq_cons, tupleLess_cons]
+      simp only [OrdD.toEq] at C ⊢
+      unfold tupleOrd
+      have := OrdD.new_of_compat
+        (fun t1 t2 : List α =>
+          match t1, t2 with
+          | a :: as, b :: bs => d.eqv a b && (tupleOrd ds).eqv as bs
+          | _, _ => false)
+        (fun t1 t2 : List α =>
+          match t1, t2 with
+          | a :: as, b :: bs =>
+            if d.less a b then true
+            else if d.less b a then false
+            else (tupleOrd ds).less as bs
+          | _, _ => false) (a :: as) (b :: bs)
+        (by simp only [i1.1, i1.2, i2.2]; exact C)
+      simp only [i1.1, i1.2] at this
+      exact this
+
+/-- `ord.TupleN` of lawful components is a lawful order on the tuples of its arity -/
+theorem tupleOrd_lawful (ds : List (OrdD α)) (h : ∀ d ∈ ds, LawfulOrd d) :
+    LawfulOrdOn (fun l : List α => l.length = ds.length) (tupleOrd ds) :=
+  (tupleLex_lawful ds h).congr fun a b pa pb =>
+    tupleOrd_spec ds (fun d hd => (h d hd).compat) a b pa pb
+
+/-- `ord.ContraMap(inst, fn)` is `inst` read through `fn`, wherever `inst.Eqv` is "neither is less" -/
+theorem OrdD.contraMap_spec {β : Type} (inst : OrdD α) (fn : β → α) (a b : β)
+    (h : inst.eqv (fn a) (fn b) = true ↔
+      (inst.less (fn a) (fn b) = false ∧ inst.less (fn b) (fn a) = false)) :
+    (OrdD.contraMap inst fn).eqv a b = inst.eqv (fn a) (fn b) ∧
+      (OrdD.contraMap inst fn).less a b = inst.less (fn a) (fn b) :=
+  OrdD.new_of_compat _ _ a b h
+
+theorem LawfulOrdOn.contraMap {β : Type} {P : α → Prop} {Q : β → Prop} {inst : OrdD α}
+    (L : LawfulOrdOn P inst) (f : β → α) (hf : ∀ x, Q x → P (f x)) :
+    LawfulOrdOn Q (OrdD.contraMap inst f) :=
+  (L.comap f hf).congr fun a b qa qb =>
+    OrdD.contraMap_spec inst f a b (L.eqv_iff (f a) (f b) (hf a qa) (hf b qb))
 
 /-! ## monoid -/
 
@@ -480,47 +588,67 @@ theorem tupleCombine_getElem (ds : List (MonoidD α)) (as bs : List α) (ha : as
           simpa [tupleCombine] using ih as bs (by simpa using ha) (by simpa using hb) k
             (by simpa using hk)
 
-theorem tupleCombine_left_id (ds : List (MonoidD α)) (h : ∀ d ∈ ds, LawfulMonoid d) (as : List α)
-    (ha : as.length = ds.length) : tupleCombine ds (tupleEmpty ds) as = as := by
-  induction ds generalizing as with
-  | nil => cases as <;> simp_all [tupleCombine]
-  | cons d ds ih =>
-    cases as with
-    | nil => simp at ha
-    | cons a as =>
-      have := ih (fun d hd => h d (by simp [hd])) as (by simpa using ha)
-      simp only [tupleEmpty] at this
-      simp [tupleEmpty, tupleCombine, (h d (by simp)).left_id a trivial, this]
+theorem Forall2.length_eq {β : Type} {R : α → β → Prop} {as : List α} {bs : List β}
+    (h : Forall2 R as bs) : as.length = bs.length := by
+  induction h with
+  | nil => rfl
+  | cons _ _ ih => simp [ih]
 
-theorem tupleCombine_right_id (ds : List (MonoidD α)) (h : ∀ d ∈ ds, LawfulMonoid d) (as : List α)
-    (ha : as.length = ds.length) : tupleCombine ds as (tupleEmpty ds) = as := by
-  induction ds generalizing as with
-  | nil => cases as <;> simp_all [tupleCombine]
-  | cons d ds ih =>
-    cases as with
-    | nil => simp at ha
-    | cons a as =>
-      have := ih (fun d hd => h d (by simp [hd])) as (by simpa using ha)
-      simp only [tupleEmpty] at this
-      simp [tupleEmpty, tupleCombine, (h d (by simp)).right_id a trivial, this]
+/-- the trivial carriers: one `True` per component -/
+theorem Forall2.of_forall {β : Type} {R : α → β → Prop} (as : List α) (b : β)
+    (h : ∀ a ∈ as, R a b) : Forall2 R as (as.map fun _ => b) := by
+  induction as with
+  | nil => exact .nil
+  | cons a as ih => exact .cons (h a (by simp)) (ih fun a ha => h a (by simp [ha]))
 
-theorem tupleCombine_assoc (ds : List (MonoidD α)) (h : ∀ d ∈ ds, LawfulMonoid d)
-    (as bs cs : List α) :
+theorem InCarriers.trivial (ds : List (MonoidD α)) (vs : List α) (h : vs.length = ds.length) :
+    InCarriers (ds.map fun _ => fun _ : α => True) vs := by
+  induction ds generalizing vs with
+  | nil => cases vs with
+    | nil => exact .nil
+    | cons v vs => simp at h
+  | cons d ds ih => cases vs with
+    | nil => simp at h
+    | cons v vs => exact .cons True.intro (ih vs (by simpa using h))
+
+theorem tupleCombine_left_id (ds : List (MonoidD α)) (Ps : List (α → Prop))
+    (h : LawfulMonoids ds Ps) (as : List α) (ha : InCarriers Ps as) :
+    tupleCombine ds (tupleEmpty ds) as = as := by
+  induction h generalizing as with
+  | nil => cases ha; simp [tupleCombine]
+  | @cons d P ds Ps hd _ ih =>
+    cases ha with
+    | cons pa ha =>
+      have := ih _ ha
+      simp only [tupleEmpty] at this
+      simp [tupleEmpty, tupleCombine, hd.left_id _ pa, this]
+
+theorem tupleCombine_right_id (ds : List (MonoidD α)) (Ps : List (α → Prop))
+    (h : LawfulMonoids ds Ps) (as : List α) (ha : InCarriers Ps as) :
+    tupleCombine ds as (tupleEmpty ds) = as := by
+  induction h generalizing as with
+  | nil => cases ha; simp [tupleCombine]
+  | @cons d P ds Ps hd _ ih =>
+    cases ha with
+    | cons pa ha =>
+      have := ih _ ha
+      simp only [tupleEmpty] at this
+      simp [tupleEmpty, tupleCombine, hd.right_id _ pa, this]
+
+theorem tupleCombine_assoc (ds : List (MonoidD α)) (Ps : List (α → Prop))
+    (h : LawfulMonoids ds Ps) (as bs cs : List α) (ha : InCarriers Ps as) (hb : InCarriers Ps bs)
+    (hc : InCarriers Ps cs) :
     tupleCombine ds (tupleCombine ds as bs) cs = tupleCombine ds as (tupleCombine ds bs cs) := by
-  induction ds generalizing as bs cs with
+  induction h generalizing as bs cs with
   | nil => simp [tupleCombine]
-  | cons d ds ih =>
-    cases as with
-    | nil => simp [tupleCombine]
-    | cons a as =>
-      cases bs with
-      | nil => simp [tupleCombine]
-      | cons b bs =>
-        cases cs with
-        | nil => simp [tupleCombine]
-        | cons c cs =>
-          simp [tupleCombine, (h d (by simp)).assoc a b c trivial trivial trivial,
-            ih (fun d hd => h d (by simp [hd]))]
+  | @cons d P ds Ps hd _ ih =>
+    cases ha with
+    | cons pa ha =>
+    cases hb with
+    | cons pb hb =>
+    cases hc with
+    | cons pc hc =>
+      simp [tupleCombine, hd.assoc _ _ _ pa pb pc, ih _ _ _ ha hb hc]
 
 /-! ## clone -/
 
